@@ -1,6 +1,7 @@
 use super::{
     Namespace, TryFromNode,
     doc::{ComponentKind, RustDocument},
+    node::collect_namespaces_on_node,
     structures::{element::ElementType, xml_name_to_rust_name},
 };
 use crate::{
@@ -35,6 +36,9 @@ impl<'n> TryFromNode<'n> for Field {
         if !node.is_element() {
             return Err(WriterError::NotAnElement);
         }
+
+        // a member may declare the prefix of its own type on itself (`<element name="x" type="q1:T" xmlns:q1="...">`)
+        collect_namespaces_on_node(node, doc);
 
         let mut target_namespace = None;
         if let Some(use_target_namespace) = node.attribute("targetNamespace") {
